@@ -491,6 +491,14 @@ func valsEqual(vc *VC, a, b Val) Term {
 				return "false"
 			}
 		}
+		// an object id and an interior address (or two interior addresses of different kinds)
+		// are disjoint in the heap model
+		if (a.S == "" && a.Loc != nil && b.S != "") || (b.S == "" && b.Loc != nil && a.S != "") {
+			return "false"
+		}
+		if a.S == "" && b.S == "" && a.Loc != nil && b.Loc != nil && a.Loc.Kind != b.Loc.Kind {
+			return "false"
+		}
 		if a.S == "" || b.S == "" {
 			sfail("comparison of leaf pointers")
 		}
